@@ -26,8 +26,11 @@
      * `DecodeAndMergeWith_deltas` — layout `BinEncodingIndexDeltas`, in full: batches whose size depends on
        the capacity and the `grow` oracle, `compact()` in between (`dec_loop2`, `dec_loop1`).  Hypotheses: `Inv s`;
        `len(buffer) ≤ max(cap, trigger)` (true of a Go slice; otherwise the first batch size is negative and
-       `remaining` grows); announced count `v < 2^63`; every decoded index an int32.  Fuel `F + 3v + 21`, `F` a
-       bound of `cf` on the stores with the invariant whose buffer has at most `L ≥ len(buffer) + v` entries.
+       `remaining` grows); announced count `v < 2^63`; every decoded index an int32.  Fuel
+       `deltasFuel cf grow s cap b` = `3v + 21` + the maximum of `cf` over `deltaStates …`, the stores handed to
+       `compact()` (a function of the store, the capacity, the oracle and the input).
+       `DecodeAndMergeWith_deltas_bound`: the same with fuel `F + 3v + 21`, `F` any bound of `cf` on the stores with
+       the invariant whose buffer has at most `L ≥ len(buffer) + v` entries (`…_gen`: common generalisation).
      * `DecodeAndMergeWith_contiguous` — layout `BinEncodingContiguousCounts`, in full: any start, any stride
        (also 0 or negative), any number of pages (`dec_loop4`, `dec_loop3`).  Hypotheses: `Inv s`; every announced
        index `start + j·stride` an int32; every decoded count finite and `≥ 0`.  Fuel
@@ -332,6 +335,47 @@ theorem pg_add_unit (st : PStore) (h : PStore.Inv st) (i : Int) (hi : Idx32 i) :
   obtain ⟨st1, h1, h2, h3⟩ := DDS.Props.C04Pag.add_content st h i hi 1 (by decide) true
   exact ⟨st1, by simp only [Store.addWithCount, h1, Option.map_some], h2, h3⟩
 
+/-- read `k` index deltas from index `idx`: the indexes, the last index, the remaining bytes -/
+def readDeltas : Nat → Int → Bytes → Option (List Int × Int × Bytes)
+  | 0, idx, bs => some ([], idx, bs)
+  | k + 1, idx, bs =>
+    match decVarint64 bs with
+    | .error _ => none
+    | .ok (d, bs1) => (readDeltas k (idx + d) bs1).map (fun r => ((idx + d) :: r.1, r.2.1, r.2.2))
+
+/-- the capacity after `k` appends to a buffer of length `len` and capacity `cap` -/
+def capAfter (grow : Int → Int → Int) : Nat → Int → Nat → Int
+  | 0, cap, _ => cap
+  | k + 1, cap, len => capAfter grow k (if (len : Int) = cap then grow cap ((len : Int) + 1) else cap) (len + 1)
+
+def appendBuf (s : PStore) (l : List Int) : PStore := { s with buffer := s.buffer ++ l }
+
+/-- the stores on which the `IndexDeltas` decoder calls `compact()` (the model store with one batch appended to
+    its buffer), in order; `M` bounds the number of rounds.  A function of the store, the capacity, the `grow`
+    oracle and the input: the fuel that `compact` needs is the maximum of `cf` over this list. -/
+def deltaStates (grow : Int → Int → Int) : Nat → PStore → Int → Int → Bytes → Nat → List PStore
+  | 0, _, _, _, _, _ => []
+  | M + 1, s, cap, idx, bs, n =>
+    match readDeltas (min (n : Int) (max cap (s.trigger : Int) - (s.buffer.length : Int))).toNat idx bs with
+    | none => []
+    | some (l, idx1, bs1) =>
+      if n - (min (n : Int) (max cap (s.trigger : Int) - (s.buffer.length : Int))).toNat = 0 then []
+      else
+        appendBuf s l :: (match (appendBuf s l).compact with
+          | none => []
+          | some s2 => deltaStates grow M s2
+              (capAfter grow (min (n : Int) (max cap (s.trigger : Int) - (s.buffer.length : Int))).toNat cap
+                s.buffer.length) idx1 bs1
+              (n - (min (n : Int) (max cap (s.trigger : Int) - (s.buffer.length : Int))).toNat))
+
+theorem deltaStates_succ (grow : Int → Int → Int) (M : Nat) (s : PStore) (cap idx : Int) (bs : Bytes) (n k : Nat)
+    (l : List Int) (idx1 : Int) (bs1 : Bytes) (s2 : PStore)
+    (hk : (min (n : Int) (max cap (s.trigger : Int) - (s.buffer.length : Int))).toNat = k)
+    (hr : readDeltas k idx bs = some (l, idx1, bs1)) (hnk : n - k ≠ 0) (hc : (appendBuf s l).compact = some s2) :
+    deltaStates grow (M + 1) s cap idx bs n
+      = appendBuf s l :: deltaStates grow M s2 (capAfter grow k cap s.buffer.length) idx1 bs1 (n - k) := by
+  simp only [deltaStates, hk, hr, hnk, if_false, hc]
+
 /-- one batch of the `IndexDeltas` layout (`loop2`): `k` items appended to the buffer (no compaction), against
     the first `k` of the model's `n = k + m` items -/
 theorem dec_loop2 (grow : Int → Int → Int) (batchSize : Int) (m : Nat) :
@@ -346,7 +390,9 @@ theorem dec_loop2 (grow : Int → Int → Int) (batchSize : Int) (m : Nat) :
         (BitVec.ofInt 64 idx) (toGen s cap) i = .done (b1, BitVec.ofInt 64 idx1, toGen s1 cap1, batchSize) ∧
       Sketch.decItems Sketch.dItem n (.pg st) idx (nb b) = Sketch.decItems Sketch.dItem m (.pg st1) idx1 (nb b1) ∧
       (∀ u ∈ dTrace m idx1 (nb b1), Idx32 u) ∧ PStore.Inv s1 ∧ PStore.Inv st1 ∧ content st1 = content s1 ∧
-      s1.buffer.length = s.buffer.length + k) := by
+      s1.buffer.length = s.buffer.length + k ∧
+      ∃ l, readDeltas k idx (nb b) = some (l, idx1, nb b1) ∧ s1 = appendBuf s l ∧
+        cap1 = capAfter grow k cap s.buffer.length) := by
   intro k
   induction k with
   | zero =>
@@ -357,7 +403,7 @@ theorem dec_loop2 (grow : Int → Int → Int) (batchSize : Int) (m : Nat) :
     have hn' : n = m := by omega
     subst hn'
     right
-    refine ⟨s, cap, st, idx, b, ?_, rfl, htr, hI, hIt, hc, by omega⟩
+    refine ⟨s, cap, st, idx, b, ?_, rfl, htr, hI, hIt, hc, by omega, [], rfl, by simp [appendBuf], rfl⟩
     simp only [Gen.Paginated.BufferedPaginatedStore.DecodeAndMergeWith.loop2, Int.lt_irrefl, decide_false,
       Bool.false_eq_true, if_false]
   | succ k ih =>
@@ -390,32 +436,41 @@ theorem dec_loop2 (grow : Int → Int → Int) (batchSize : Int) (m : Nat) :
         rw [hc1, hc]; exact (content_append_buffer s hI _ hx).symm
       have hidx : BitVec.ofInt 64 idx + BitVec.ofInt 64 d = BitVec.ofInt 64 (idx + d) := by
         rw [BitVec.ofInt_add]
-      have hl : ∃ cap', Gen.Paginated.BufferedPaginatedStore.DecodeAndMergeWith.loop2 grow batchSize (fuel + 1) b
+      have hl : Gen.Paginated.BufferedPaginatedStore.DecodeAndMergeWith.loop2 grow batchSize (fuel + 1) b
             (BitVec.ofInt 64 idx) (toGen s cap) i
           = Gen.Paginated.BufferedPaginatedStore.DecodeAndMergeWith.loop2 grow batchSize fuel b1
-            (BitVec.ofInt 64 (idx + d)) (toGen s1 cap') (i + 1) := by
+            (BitVec.ofInt 64 (idx + d))
+            (toGen s1 (if (s.buffer.length : Int) = cap then grow cap ((s.buffer.length : Int) + 1) else cap))
+            (i + 1) := by
         simp only [Gen.Paginated.BufferedPaginatedStore.DecodeAndMergeWith.loop2, hi, decide_true, if_true, hV1,
           Res.bindL_ok, hnil, Bool.false_eq_true, if_false, hidx, cdc_toInt _ hx]
-        by_cases hcap : (GoSem.len (toGen s cap).buffer == (toGen s cap).bufferCap) = true
-        · exact ⟨grow cap (GoSem.len s.buffer + 1), by simp only [hcap, if_true]; rfl⟩
-        · exact ⟨cap, by simp only [hcap]; rfl⟩
-      obtain ⟨cap', hl⟩ := hl
+        by_cases hcap : (s.buffer.length : Int) = cap
+        · have hb : (GoSem.len (toGen s cap).buffer == (toGen s cap).bufferCap) = true := by
+            rw [beq_iff_eq]; exact hcap
+          simp only [hb, if_true, if_pos hcap]; rfl
+        · have hb : (GoSem.len (toGen s cap).buffer == (toGen s cap).bufferCap) = false := by
+            rw [beq_eq_false_iff_ne]; exact hcap
+          simp only [hb, Bool.false_eq_true, if_false, if_neg hcap]; rfl
       rw [hl, hm, ← hb1]
-      rcases ih n' fuel b1 s1 cap' (i + 1) st1 (idx + d) (by omega) (by omega) (by omega) hI1 hIt1 hcs1
-        (fun u hu => htr u (List.mem_cons_of_mem _ hu)) with h | ⟨s2, cap2, st2, idx2, b2, h1, h2, h3, h4, h5, h6, h7⟩
-      · exact Or.inl h
-      · refine Or.inr ⟨s2, cap2, st2, idx2, b2, h1, h2, h3, h4, h5, h6, ?_⟩
-        rw [h7]
-        show (s.buffer ++ [idx + d]).length + k = _
+      have hlen1 : s1.buffer.length = s.buffer.length + 1 := by
+        show (s.buffer ++ [idx + d]).length = _
         rw [List.length_append, List.length_singleton]
-        omega
+      rcases ih n' fuel b1 s1 _ (i + 1) st1 (idx + d) (by omega) (by omega) (by omega) hI1 hIt1 hcs1
+        (fun u hu => htr u (List.mem_cons_of_mem _ hu)) with
+        h | ⟨s2, cap2, st2, idx2, b2, h1, h2, h3, h4, h5, h6, h7, l', h8, h9, h10⟩
+      · exact Or.inl h
+      · refine Or.inr ⟨s2, cap2, st2, idx2, b2, h1, h2, h3, h4, h5, h6, by omega, (idx + d) :: l', ?_, ?_, ?_⟩
+        · rw [hb1] at h8
+          simp only [readDeltas, hV, h8, Option.map_some]
+        · rw [h9]; simp [appendBuf, s1, List.append_assoc]
+        · rw [h10, hlen1]; simp only [capAfter]
 
 /-- the batches of the `IndexDeltas` layout (`loop1`): batch, `compact()`, batch, … against the model's `n` items.
     `M` bounds the number of rounds (`2n`, `+1` when the first batch is empty because the buffer is full);
     `F` is enough fuel for every `compact` on a store (with the invariant) whose buffer has at most `L` entries. -/
-theorem dec_loop1 (cf : PStore → Nat) (hcompact : CompactSpec cf) (grow : Int → Int → Int) (F L : Nat)
-    (hcf : ∀ s', PStore.Inv s' → s'.buffer.length ≤ L → cf s' ≤ F) :
+theorem dec_loop1 (cf : PStore → Nat) (hcompact : CompactSpec cf) (grow : Int → Int → Int) (F L : Nat) :
     ∀ (M n fuel : Nat) (b : List (BitVec 8)) (s : PStore) (cap : Int) (st : PStore) (idx : Int),
+    (∀ s' ∈ deltaStates grow M s cap idx (nb b) n, PStore.Inv s' → s'.buffer.length ≤ L → cf s' ≤ F) →
     2 * n + (if (s.buffer.length : Int) < max cap (s.trigger : Int) then 0 else 1) < M →
     F + M + n + 11 ≤ fuel → s.buffer.length + n ≤ L →
     (s.buffer.length : Int) ≤ max cap (s.trigger : Int) →
@@ -426,9 +481,9 @@ theorem dec_loop1 (cf : PStore → Nat) (hcompact : CompactSpec cf) (grow : Int 
       (Sketch.decItems Sketch.dItem n (.pg st) idx (nb b)) := by
   intro M
   induction M with
-  | zero => intro n fuel b s cap st idx hM; omega
+  | zero => intro n fuel b s cap st idx _ hM; omega
   | succ M ih =>
-    intro n fuel b s cap st idx hM hf hL hcap hI hIt hc htr
+    intro n fuel b s cap st idx hcf hM hf hL hcap hI hIt hc htr
     obtain ⟨fuel, rfl⟩ : ∃ f, fuel = f + 1 := ⟨fuel - 1, by omega⟩
     -- the batch size
     obtain ⟨k, hk⟩ : ∃ k : Nat, (k : Int) = min (n : Int) (max cap (s.trigger : Int) - (s.buffer.length : Int)) :=
@@ -441,7 +496,7 @@ theorem dec_loop1 (cf : PStore → Nat) (hcompact : CompactSpec cf) (grow : Int 
     unfold Gen.Paginated.BufferedPaginatedStore.DecodeAndMergeWith.loop1
     simp only [hbs]
     rcases dec_loop2 grow (k : Int) m k n fuel b s cap 0 st idx hm (by omega) (by omega) hI hIt hc htr with
-      ⟨h1, g', b', h2⟩ | ⟨s1, cap1, st1, idx1, b1, h1, h2, h3, hI1, hIt1, hc1, hlen1⟩
+      ⟨h1, g', b', h2⟩ | ⟨s1, cap1, st1, idx1, b1, h1, h2, h3, hI1, hIt1, hc1, hlen1, l, hrd, hs1, hcap1⟩
     · rw [h1, h2]
       exact ⟨rfl, g', b', rfl⟩
     · rw [h1, h2]
@@ -453,15 +508,20 @@ theorem dec_loop1 (cf : PStore → Nat) (hcompact : CompactSpec cf) (grow : Int 
         exact ⟨s1, cap1, st1, by rw [bn_nb], rfl, hI1, hIt1, hc1.symm⟩
       · have hz : ((n : Int) - (k : Int) == 0) = false := by rw [beq_eq_false_iff_ne]; omega
         simp only [hz, Bool.false_eq_true, if_false]
-        have hcf1 : cf s1 ≤ fuel := Nat.le_trans (hcf s1 hI1 (by omega)) (by omega)
-        rw [hcompact s1 cap1 fuel hcf1]
         obtain ⟨s2, hcp, hI2, hc2⟩ := DDS.Props.C04Pag.compact_content s1 hI1
+        have hds := deltaStates_succ grow M s cap idx (nb b) n k l idx1 (nb b1) s2 (by omega) hrd (by omega)
+          (by rw [← hs1]; exact hcp)
+        rw [hds, ← hs1, ← hcap1, show n - k = m by omega] at hcf
+        have hcf1 : cf s1 ≤ fuel :=
+          Nat.le_trans (hcf s1 (List.mem_cons_self ..) hI1 (by omega)) (by omega)
+        rw [hcompact s1 cap1 fuel hcf1]
         have hlen2 := (DDS.RoundTrip.compact_buffer s1 s2 hcp).1
         have htrig := compact_trigger s1 s2 hcp
         have hpl : 0 < s2.pageLen := Nat.two_pow_pos _
         rw [hcp, toRes_some, Res.bindL_ok, show (n : Int) - (k : Int) = (m : Int) by omega]
         have hlt : (s2.buffer.length : Int) < max cap1 (s2.trigger : Int) := by omega
-        apply ih m fuel b1 s2 cap1 st1 idx1 _ (by omega) (by omega) (by omega) hI2 hIt1 (by rw [hc1, hc2]) h3
+        apply ih m fuel b1 s2 cap1 st1 idx1 (fun s' hs' => hcf s' (List.mem_cons_of_mem _ hs')) _ (by omega)
+          (by omega) (by omega) hI2 hIt1 (by rw [hc1, hc2]) h3
         rw [if_pos hlt]
         by_cases hk0 : k = 0
         · subst hk0
@@ -472,24 +532,15 @@ theorem dec_loop1 (cf : PStore → Nat) (hcompact : CompactSpec cf) (grow : Int 
 
 theorem beqDeltas : (BinEncodingIndexDeltas == BinEncodingIndexDeltas) = true := by decide
 
-/-- **`DecodeAndMergeWith`, layout `BinEncodingIndexDeltas`** (batches of appends with `compact()` in between, for
-    every capacity, every `grow` oracle, every fallback), against `Sketch.decodeStore (.pg s)`:
-    same error (`io.EOF` ↔ `.eof`), same remaining bytes, and the resulting store is the image of a model store
-    with the invariant and the CONTENT of the model's result; the model does not panic and the generated code
-    neither panics nor runs out of fuel.
-
-    Hypotheses: the invariant; `len(buffer) ≤ max(cap(buffer), trigger)` (true of every Go slice; without it the
-    first batch size is negative and `remaining` GROWS); the announced number of bins `v` fits `int`
-    (`v < 2^63`, see `deltas_negative_count` for what happens otherwise); every decoded index is an int32
-    (`Idx32`, needed by the invariant).  Fuel: `F + 3 v + 21` where `F` is enough for `compact` on any store
-    with the invariant and a buffer of at most `L ≥ len(buffer) + v` entries. -/
-theorem DecodeAndMergeWith_deltas (cf : PStore → Nat) (hcompact : CompactSpec cf) (grow : Int → Int → Int)
+/-- general form of the two theorems below: `F` bounds `cf` on the stores handed to `compact()` (`deltaStates`)
+    that satisfy the invariant and have at most `L` buffered entries -/
+theorem DecodeAndMergeWith_deltas_gen (cf : PStore → Nat) (hcompact : CompactSpec cf) (grow : Int → Int → Int)
     (fb : GP → List (BitVec 8) → SubFlag → Res (GP × List (BitVec 8) × GoErr))
-    (F L : Nat) (hcf : ∀ s', PStore.Inv s' → s'.buffer.length ≤ L → cf s' ≤ F)
-    (fuel : Nat) (s : PStore) (cap : Int) (b : List (BitVec 8)) (hI : PStore.Inv s)
+    (F L : Nat) (fuel : Nat) (s : PStore) (cap : Int) (b : List (BitVec 8)) (hI : PStore.Inv s)
     (hcap : (s.buffer.length : Int) ≤ max cap (s.trigger : Int)) (hf9 : 9 ≤ fuel)
     (hn : ∀ v rest, decUvarint64 (nb b) = .ok (v, rest) →
-      v < 2 ^ 63 ∧ s.buffer.length + v ≤ L ∧ F + 3 * v + 21 ≤ fuel)
+      v < 2 ^ 63 ∧ s.buffer.length + v ≤ L ∧ F + 3 * v + 21 ≤ fuel ∧
+      ∀ s' ∈ deltaStates grow (2 * v + 2) s cap 0 rest v, PStore.Inv s' → s'.buffer.length ≤ L → cf s' ≤ F)
     (hidx : ∀ u ∈ DDS.GenStoreDecode.storeIndexes Consts.binEncodingIndexDeltas (nb b), Idx32 u) :
     DecAgrees (Gen.Paginated.BufferedPaginatedStore.DecodeAndMergeWith fuel grow fb (toGen s cap) b
         BinEncodingIndexDeltas)
@@ -505,7 +556,7 @@ theorem DecodeAndMergeWith_deltas (cf : PStore → Nat) (hcompact : CompactSpec 
     exact ⟨rfl, _, _, rfl⟩
   | ok p =>
     obtain ⟨v, rest⟩ := p
-    obtain ⟨hv, hL, hf⟩ := hn v rest hU
+    obtain ⟨hv, hL, hf, hcf⟩ := hn v rest hU
     obtain ⟨b1, hU1, hb1, _, _⟩ := U_ok fuel hf9 b v rest hU
     rw [hU1]
     simp only [Res.bind_ok, hnil, Bool.false_eq_true, if_false, Sketch.liftDec]
@@ -519,8 +570,8 @@ theorem DecodeAndMergeWith_deltas (cf : PStore → Nat) (hcompact : CompactSpec 
       simp only [DDS.GenStoreDecode.storeIndexes, hU,
         show Consts.binEncodingIndexDeltas ≠ Consts.binEncodingIndexDeltasAndCounts by decide, if_false, if_true]
       rw [hb1] at hu; exact hu
-    have h := dec_loop1 cf hcompact grow F L hcf (2 * v + 2) v fuel b1 s cap s 0 (by split <;> omega) (by omega)
-      hL hcap hI hI rfl htr
+    have h := dec_loop1 cf hcompact grow F L (2 * v + 2) v fuel b1 s cap s 0 (by rw [hb1]; exact hcf)
+      (by split <;> omega) (by omega) hL hcap hI hI rfl htr
     rw [hti, show (0#64) = BitVec.ofInt 64 0 from rfl, ← hb1]
     revert h
     cases Sketch.decItems Sketch.dItem v (.pg s) 0 (nb b1) with
@@ -534,6 +585,83 @@ theorem DecodeAndMergeWith_deltas (cf : PStore → Nat) (hcompact : CompactSpec 
         obtain ⟨st', rest'⟩ := q
         rintro ⟨s', cap', st'', h1, h2⟩
         rw [h1]; exact ⟨s', cap', st'', rfl, h2⟩
+
+theorem le_foldl_max (l : List Nat) (a x : Nat) (h : x ≤ a ∨ x ∈ l) : x ≤ l.foldl max a := by
+  induction l generalizing a with
+  | nil =>
+    rcases h with h | h
+    · exact h
+    · cases h
+  | cons y l ih =>
+    rw [List.foldl_cons]
+    apply ih
+    rcases h with h | h
+    · exact Or.inl (by omega)
+    · rcases List.mem_cons.1 h with rfl | h
+      · exact Or.inl (by omega)
+      · exact Or.inr h
+
+/-- the fuel `DecodeAndMergeWith` needs on an `IndexDeltas` block: a function of the store, the capacity, the
+    `grow` oracle and the input (`v` = announced number of bins): `3v + 21` for its own loops and the codecs, plus
+    the maximum of `cf` over the stores it compacts -/
+def deltasFuel (cf : PStore → Nat) (grow : Int → Int → Int) (s : PStore) (cap : Int) (b : List (BitVec 8)) : Nat :=
+  match decUvarint64 (nb b) with
+  | .error _ => 9
+  | .ok (v, rest) => ((deltaStates grow (2 * v + 2) s cap 0 rest v).map cf).foldl max 0 + 3 * v + 21
+
+/-- **`DecodeAndMergeWith`, layout `BinEncodingIndexDeltas`** (batches of appends with `compact()` in between, for
+    every capacity, every `grow` oracle, every fallback), against `Sketch.decodeStore (.pg s)`:
+    same error (`io.EOF` ↔ `.eof`), same remaining bytes, and the resulting store is the image of a model store
+    with the invariant and the CONTENT of the model's result; the model does not panic and the generated code
+    neither panics nor runs out of fuel.
+
+    Hypotheses: the invariant; `len(buffer) ≤ max(cap(buffer), trigger)` (true of every Go slice; without it the
+    first batch size is negative and `remaining` GROWS); the announced number of bins `v` fits `int`
+    (`v < 2^63`, see `deltas_negative_count_gen` for what happens otherwise); every decoded index is an int32
+    (`Idx32`, needed by the invariant).  Fuel: `deltasFuel cf grow s cap b`. -/
+theorem DecodeAndMergeWith_deltas (cf : PStore → Nat) (hcompact : CompactSpec cf) (grow : Int → Int → Int)
+    (fb : GP → List (BitVec 8) → SubFlag → Res (GP × List (BitVec 8) × GoErr))
+    (fuel : Nat) (s : PStore) (cap : Int) (b : List (BitVec 8)) (hI : PStore.Inv s)
+    (hcap : (s.buffer.length : Int) ≤ max cap (s.trigger : Int))
+    (hn : ∀ v rest, decUvarint64 (nb b) = .ok (v, rest) → v < 2 ^ 63)
+    (hidx : ∀ u ∈ DDS.GenStoreDecode.storeIndexes Consts.binEncodingIndexDeltas (nb b), Idx32 u)
+    (hf : deltasFuel cf grow s cap b ≤ fuel) :
+    DecAgrees (Gen.Paginated.BufferedPaginatedStore.DecodeAndMergeWith fuel grow fb (toGen s cap) b
+        BinEncodingIndexDeltas)
+      (Sketch.decodeStore (.pg s) Consts.binEncodingIndexDeltas (nb b)) := by
+  cases hU : decUvarint64 (nb b) with
+  | error e =>
+    apply DecodeAndMergeWith_deltas_gen cf hcompact grow fb 0 0 fuel s cap b hI hcap
+      (by simp only [deltasFuel, hU] at hf; exact hf) (fun v rest h => by rw [hU] at h; cases h) hidx
+  | ok p =>
+    obtain ⟨v, rest⟩ := p
+    simp only [deltasFuel, hU] at hf
+    apply DecodeAndMergeWith_deltas_gen cf hcompact grow fb
+      (((deltaStates grow (2 * v + 2) s cap 0 rest v).map cf).foldl max 0) (s.buffer.length + v) fuel s cap b hI hcap
+      (by omega) ?_ hidx
+    intro v' rest' h
+    rw [hU] at h
+    cases h
+    refine ⟨hn v rest hU, Nat.le_refl _, hf, fun s' hs' _ _ => ?_⟩
+    exact le_foldl_max _ 0 _ (Or.inr (List.mem_map_of_mem hs'))
+
+/-- the same with a closed fuel bound: `F` enough for `compact` on ANY store with the invariant and a buffer of at
+    most `L ≥ len(buffer) + v` entries; fuel `F + 3v + 21` -/
+theorem DecodeAndMergeWith_deltas_bound (cf : PStore → Nat) (hcompact : CompactSpec cf) (grow : Int → Int → Int)
+    (fb : GP → List (BitVec 8) → SubFlag → Res (GP × List (BitVec 8) × GoErr))
+    (F L : Nat) (hcf : ∀ s', PStore.Inv s' → s'.buffer.length ≤ L → cf s' ≤ F)
+    (fuel : Nat) (s : PStore) (cap : Int) (b : List (BitVec 8)) (hI : PStore.Inv s)
+    (hcap : (s.buffer.length : Int) ≤ max cap (s.trigger : Int)) (hf9 : 9 ≤ fuel)
+    (hn : ∀ v rest, decUvarint64 (nb b) = .ok (v, rest) →
+      v < 2 ^ 63 ∧ s.buffer.length + v ≤ L ∧ F + 3 * v + 21 ≤ fuel)
+    (hidx : ∀ u ∈ DDS.GenStoreDecode.storeIndexes Consts.binEncodingIndexDeltas (nb b), Idx32 u) :
+    DecAgrees (Gen.Paginated.BufferedPaginatedStore.DecodeAndMergeWith fuel grow fb (toGen s cap) b
+        BinEncodingIndexDeltas)
+      (Sketch.decodeStore (.pg s) Consts.binEncodingIndexDeltas (nb b)) :=
+  DecodeAndMergeWith_deltas_gen cf hcompact grow fb F L fuel s cap b hI hcap hf9
+    (fun v rest h => by
+      obtain ⟨h1, h2, h3⟩ := hn v rest h
+      exact ⟨h1, h2, h3, fun s' _ hI' hl' => hcf s' hI' hl'⟩) hidx
 
 /-! #### a disagreement on malformed input: an announced bin count `≥ 2^63`
 
